@@ -107,6 +107,27 @@ class Expr:
     def is_not_null(self): return Expr(lambda fr: [x is not None for x in self.eval(fr)], self._name)
     def fill_null(self, v): return Expr(lambda fr: [v if x is None else x for x in self.eval(fr)], self._name)
 
+    def forward_fill(self, limit=None):
+        def fn(fr):
+            out, last = [], None
+            for x in self.eval(fr):
+                if x is not None:
+                    last = x
+                out.append(last)
+            return out
+        return Expr(fn, self._name)
+
+    def backward_fill(self, limit=None):
+        def fn(fr):
+            vals = list(self.eval(fr))
+            out, nxt = [None] * len(vals), None
+            for i in range(len(vals) - 1, -1, -1):
+                if vals[i] is not None:
+                    nxt = vals[i]
+                out[i] = nxt
+            return out
+        return Expr(fn, self._name)
+
     def cast(self, dtype):
         if dtype in ("Utf8", "String", str):
             return Expr(lambda fr: [None if x is None else str(x) for x in self.eval(fr)], self._name)
